@@ -202,7 +202,6 @@ func sameStep(a, b any) bool { return fmt.Sprintf("%T:%v", a, a) == fmt.Sprintf(
 // c16NumberLikeKeys: string keys whose text reads as a number, a boolean or null: they stay strings in path and key
 var c16NumberLikeKeys = []string{"8080", "007", "02134", "0x1F", "1_000", "+5", "-3", "1.5", "1e3", "0o17", "0", "12", "true", "null", "~", ".5", "0b11"}
 
-
 func pathOf(v *ref.V) ([]any, bool) {
 	if v.K != ref.Seq {
 		return nil, false
